@@ -93,6 +93,8 @@ def idsetStep (s : IdsetSt) (toks : List String) : IdsetSt × String :=
         | none => (s, "bad-op")
   | _ => (s, "bad-op")
 
+-- @family "idset" idsetFam
+-- @family "idset.oracle" idsetOracle
 def idsetFam : Fam := { σ := IdsetSt, init := {}, step := idsetStep }
 
 /-- Oracle for C19 on the implementation's answers: an ideal set (sorted duplicate-free list) is
